@@ -66,7 +66,11 @@ func genC17(o *hx.Out, tier string) {
 		class := "user-dialect"
 		switch r.Intn(4) {
 		case 0:
-			msgs = append(msgs, msgs[r.Intn(len(msgs))]) // duplicate id
+			dup := msgs[r.Intn(len(msgs))] // duplicate id: the same value again, or a fresh value of the same type
+			if r.Intn(2) == 0 {
+				dup = reflect.New(reflect.TypeOf(dup).Elem()).Interface().(message.Message)
+			}
+			msgs = append(msgs, dup)
 			r.Shuffle(len(msgs), func(a, b int) { msgs[a], msgs[b] = msgs[b], msgs[a] })
 			class = "user-dialect duplicate"
 		case 1:
